@@ -2,13 +2,17 @@ package main
 
 import (
 	"fmt"
+	"math/big"
 	"time"
 
 	sdkmath "cosmossdk.io/math"
 	stakingtypes "cosmossdk.io/x/staking/types"
 	sdk "github.com/cosmos/cosmos-sdk/types"
+	datypes "github.com/sunriselayer/sunrise/x/da/types"
 	litypes "github.com/sunriselayer/sunrise/x/liquidityincentive/types"
 	lptypes "github.com/sunriselayer/sunrise/x/liquiditypool/types"
+	sctypes "github.com/sunriselayer/sunrise/x/shareclass/types"
+	authtypes "github.com/cosmos/cosmos-sdk/x/auth/types"
 
 	"svh/sim"
 )
@@ -27,6 +31,9 @@ func suiteHalt(e *Env) {
 		{"plain_blocks_time_jumps", haltPlainBlocks},
 		{"price_to_tick_search_low_price", haltTickSearchLowPrice},
 		{"price_to_tick_search_ratio_next_to_one", haltTickSearchTinyRatio},
+		{"da_open_challenge_across_genesis_import", haltDAOpenChallengeAcrossImport},
+		{"shareclass_unbonding_to_blocked_recipient", haltUnbondingToBlockedRecipient},
+		{"da_large_replication_factor", haltDALargeReplicationFactor},
 	}
 	for _, sc := range scenarios {
 		c, err := sim.New(sim.DefaultConfig())
@@ -148,5 +155,102 @@ func haltTickSearchTinyRatio(e *Env, c *sim.Chain) string {
 	_, err, p := c.Exec(&lptypes.MsgCreatePosition{Sender: a.Addr.String(), PoolId: 0, LowerTick: -100, UpperTick: 100,
 		TokenBase: sdk.NewCoin("uaaa", sdkmath.NewInt(1_000_000)), TokenQuote: sdk.NewCoin("ubbb", sdkmath.NewInt(4_000_000)), MinAmountBase: sdkmath.ZeroInt(), MinAmountQuote: sdkmath.ZeroInt()})
 	e.Note("createPosition returned: %v %v", err, p)
+	return ""
+}
+
+
+// An item is under challenge when the chain is exported and re-imported (the custom modules' ExportGenesis -> JSON ->
+// InitGenesis, as in an upgrade by genesis); the imported chain then runs past the proof deadline.  Whatever the export leaves
+// out (C19), the tally of the re-imported item must not stop the chain.
+func haltDAOpenChallengeAcrossImport(e *Env, c *sim.Chain) string {
+	pub, ch := c.Accs[1].Addr.String(), c.Accs[2].Addr.String()
+	hs := [][]byte{mimcHash(big.NewInt(11)), mimcHash(big.NewInt(12)), mimcHash(big.NewInt(13)), mimcHash(big.NewInt(14))}
+	if _, err, p := c.Exec(&datypes.MsgPublishData{Sender: pub, MetadataUri: "ipfs://open", ParityShardCount: 1, ShardDoubleHashes: hs}); err != nil || p != nil {
+		return fmt.Sprintf("setup publish: %v %v", err, p)
+	}
+	if _, err, p := c.Exec(&datypes.MsgSubmitInvalidity{Sender: ch, MetadataUri: "ipfs://open", Indices: []int64{0, 1, 2}}); err != nil || p != nil {
+		return fmt.Sprintf("setup invalidity: %v %v", err, p)
+	}
+	if _, err := c.NextBlock(6 * time.Second); err != nil {
+		return fmt.Sprintf("block before export: %v", err)
+	}
+	it, found, err := c.App.DaKeeper.GetPublishedData(c.Ctx(), "ipfs://open")
+	if err != nil || !found || it.Status != datypes.Status_STATUS_CHALLENGING {
+		return fmt.Sprintf("setup: item not under challenge (%v %v %v)", found, it.Status, err)
+	}
+	if err := roundTrip(c); err != nil {
+		return fmt.Sprintf("export/import: %v", err)
+	}
+	par, _ := c.App.DaKeeper.Params.Get(c.Ctx())
+	for _, dt := range []time.Duration{6 * time.Second, par.ProofPeriod + time.Minute, 6 * time.Second} {
+		if _, err := c.NextBlock(dt); err != nil {
+			return fmt.Sprintf("block dt=%s after import: %.300s", dt, err.Error())
+		}
+	}
+	e.Stat("halt.da_import_open_challenge")
+	return ""
+}
+
+
+// A non-voting undelegation names a recipient that the bank refuses to credit (a module account on the blocked list).  The
+// message is accepted; the payment happens weeks later inside the share-class end-blocker.
+func haltUnbondingToBlockedRecipient(e *Env, c *sim.Chain) string {
+	a := c.Accs[1].Addr.String()
+	val := c.Vals[0].Oper.String()
+	if _, err, p := c.Exec(&sctypes.MsgNonVotingDelegate{Sender: a, ValidatorAddress: val, Amount: sdk.NewInt64Coin("urise", 5_000_000)}); err != nil || p != nil {
+		return fmt.Sprintf("setup delegate: %v %v", err, p)
+	}
+	if _, err := c.NextBlock(6 * time.Second); err != nil {
+		return fmt.Sprintf("block: %v", err)
+	}
+	accepted := 0
+	for _, mod := range []string{"fee_collector", "distribution", "bonded_tokens_pool", "shareclass"} {
+		rcpt := authtypes.NewModuleAddress(mod).String()
+		_, err, p := c.Exec(&sctypes.MsgNonVotingUndelegate{Sender: a, ValidatorAddress: val, Amount: sdk.NewInt64Coin("urise", 1_000_000), Recipient: rcpt})
+		if p != nil {
+			return fmt.Sprintf("undelegate to %s panicked: %v", mod, p)
+		}
+		if err == nil {
+			accepted++
+			e.Stat("halt.blocked_recipient_accepted." + mod)
+		}
+	}
+	e.Stat(fmt.Sprintf("halt.blocked_recipients_accepted.%d", accepted))
+	for _, dt := range []time.Duration{6 * time.Second, 22 * 24 * time.Hour, 6 * time.Second} {
+		if _, err := c.NextBlock(dt); err != nil {
+			return fmt.Sprintf("block dt=%s: %.300s", dt, err.Error())
+		}
+	}
+	return ""
+}
+
+
+// Governance sets a replication factor that Params.Validate accepts (any positive decimal) but whose product with the shard
+// count does not fit an int64 / the decimal range; an item is then challenged and tallied.
+func haltDALargeReplicationFactor(e *Env, c *sim.Chain) string {
+	auth, _ := c.App.AuthKeeper.AddressCodec().BytesToString(c.App.DaKeeper.GetAuthority())
+	pub, ch := c.Accs[1].Addr.String(), c.Accs[2].Addr.String()
+	hs := [][]byte{mimcHash(big.NewInt(21)), mimcHash(big.NewInt(22)), mimcHash(big.NewInt(23)), mimcHash(big.NewInt(24))}
+	for k, rf := range []string{"10000000000000000000", "100000000000000000000000000000000000000000000000000000000"} {
+		par, _ := c.App.DaKeeper.Params.Get(c.Ctx())
+		par.ReplicationFactor = rf
+		if _, err, p := c.Exec(&datypes.MsgUpdateParams{Authority: auth, Params: par}); err != nil || p != nil {
+			e.Stat("halt.large_rf_refused")
+			continue
+		}
+		e.Stat("halt.large_rf_accepted")
+		uri := fmt.Sprintf("ipfs://rf%d", k)
+		if _, err, p := c.Exec(&datypes.MsgPublishData{Sender: pub, MetadataUri: uri, ParityShardCount: 1, ShardDoubleHashes: hs}); err != nil || p != nil {
+			return fmt.Sprintf("publish under rf=%s: %v %v", rf, err, p)
+		}
+		if _, err, p := c.Exec(&datypes.MsgSubmitInvalidity{Sender: ch, MetadataUri: uri, Indices: []int64{0, 1, 2}}); err != nil || p != nil {
+			return fmt.Sprintf("invalidity under rf=%s: %v %v", rf, err, p)
+		}
+		for _, dt := range []time.Duration{6 * time.Second, par.ProofPeriod + time.Minute, 6 * time.Second} {
+			if _, err := c.NextBlock(dt); err != nil {
+				return fmt.Sprintf("rf=%s block dt=%s: %.300s", rf, dt, err.Error())
+			}
+		}
+	}
 	return ""
 }
